@@ -17,8 +17,14 @@ of the form `=+ *` (Setext underline, not escapable); no line ends with two or m
 break: documented meaning, not escapable); the text neither starts nor ends with white space (the output is stripped;
 inner and line-final single spaces are kept and compared).
 
+History mode (the escapable list is PER INSTANCE and may change during its life): one instance, 1-3 conversions (texts
+with backslashes, `reset()` before each), then the escapable set is extended late — `md.registerExtensions(['tables'|'smarty'],
+{})` or `md.ESCAPED_CHARS.append(c)` — then (all) and (single) are evaluated on that instance against its CURRENT
+`md.ESCAPED_CHARS` (plus the characters stated for the extensions registered so far).
+
 distinct / non-trivial: distinct (extensions, t) of the domain that contain at least one escapable character."""
 import itertools
+import json
 import re
 
 import markdown
@@ -165,6 +171,62 @@ def check_single(conv, ctx, sx, rx):
     return (out == want), src, out, want
 
 
+
+# ---------------------------------------------------------------- history mode
+LATE_CHARS = ['|', '~', '^', ':', '@', '=', '/', ',', ';', '?', '%', '"', "'", 'q', '$']
+PRIOR = ['a \\* b', '\\\\', 'x\\', '\\| \\" \\~', '`\\`', '\\a', '*e* \\_ `c`', '# h \\#', '| a | b |\n|---|---|\n| c \\| d | e |', '"q" \\"r\\"', 'no escape here', '[l](u\\)) \\[', '\\']
+
+
+def run_history(h):
+    """h = {'base': [ext], 'prior': [source...], 'late': [['register', ext] | ['append', c] ...], 'text': t}
+    -> (ok, source, output, required, escapables used)"""
+    md = markdown.Markdown(extensions=list(h['base']))
+    stated = STATED_CORE + [c for e in h['base'] for c in STATED_EXT.get(e, [])]
+    try:
+        for src in h['prior']:
+            md.reset(); md.convert(src)
+        for act in h['late']:
+            if act[0] == 'register':
+                md.registerExtensions([act[1]], {})
+                stated = stated + [c for c in STATED_EXT.get(act[1], []) if c not in stated]
+            else:
+                if act[1] not in md.ESCAPED_CHARS: md.ESCAPED_CHARS.append(act[1])
+        esc = list(md.ESCAPED_CHARS) + [c for c in stated if c not in md.ESCAPED_CHARS]
+        src = esc_all(h['text'], esc)
+        md.reset()
+        out = md.convert(src)
+    except Exception as e:
+        return False, h.get('text', ''), 'EXCEPTION %s: %s' % (type(e).__name__, str(e)[:100]), '', []
+    want = '<p>' + cdata(h['text']) + '</p>'
+    return out == want, src, out, want, esc
+
+
+def gen_history(rng):
+    base = rng.choice([[], [], [], ['tables'], ['smarty']])
+    late = []
+    for _ in range(rng.randint(1, 2)):
+        r = rng.random()
+        if r < 0.55:
+            cand = [e for e in ('tables', 'smarty') if e not in base and ['register', e] not in late]
+            if cand: late.append(['register', rng.choice(cand)]); continue
+        late.append(['append', rng.choice(LATE_CHARS)])
+    prior = []
+    for _ in range(rng.randint(1, 3)):
+        prior.append(rng.choice(PRIOR) if rng.random() < 0.5 else esc_all(rand_text(rng, STATED_CORE), STATED_CORE) or 'a\\*')
+    new = [c for a in late for c in (STATED_EXT.get(a[1], []) if a[0] == 'register' else [a[1]])]
+    esc_now = STATED_CORE + [c for e in base for c in STATED_EXT.get(e, [])] + new
+    if rng.random() < 0.35:
+        c = rng.choice(new)
+        pre, post = rng.choice(SHAPES)
+        t = repair(pre + c + post)
+    else:
+        t = rand_text(rng, esc_now)
+        for _ in range(rng.randint(1, 3)):      # make sure the late characters occur
+            i = rng.randint(0, len(t)); t = t[:i] + rng.choice(new) + t[i:]
+        t = repair(t)
+    return {'base': base, 'prior': prior, 'late': late, 'text': t}
+
+
 def search(driver, rng, n):
     viol = []; seen = set(); samples = []
     dist = {'configs': {}, 'escapables': {}, 'exhaustive_maxlen': 0, 'exhaustive_cases': 0, 'random_cases': 0, 'single_cases': 0, 'multi_line': 0,
@@ -219,14 +281,35 @@ def search(driver, rng, n):
         if not ok: report('all-escaped/random', conv, t, src, out, want)
         if len(samples) < 5 and i % max(1, MULT * n // 5) == 0:
             samples.append({'extensions': conv.exts, 'text': t, 'source': src, 'output': out})
-    viol.sort(key=lambda v: len(v['input']))
+    # history mode: one case per unit of budget
+    dist['history_cases'] = 0; dist['history_late'] = {}
+    for i in range(n):
+        h = gen_history(rng)
+        if not in_domain(h['text']):
+            dist['repaired_empty'] += 1; continue
+        ok, src, out, want, esc = run_history(h)
+        cases += 1; dist['history_cases'] += 1
+        for a in h['late']:
+            k = a[0] + ':' + (a[1] if a[0] == 'register' else 'char'); dist['history_late'][k] = dist['history_late'].get(k, 0) + 1
+        seen.add(('history', json.dumps(h, sort_keys=True)))
+        if not ok:
+            if out.startswith('EXCEPTION'): dist['exceptions'] += 1
+            viol.append({'input': dict(h, source=src), 'config': {'extensions': h['base'], 'kind': 'history', 'unescaped_text': h['text']},
+                         'observed': out[:600], 'required': want, 'finding': None})
+        if i == 0:
+            samples.append({'history': h, 'source': src, 'output': out})
+    viol.sort(key=lambda v: len(json.dumps(v['input'])))
     return {'cases': cases, 'distinct': len(seen), 'violations': viol[:20], 'samples': samples, 'dist': dist}
 
 
 def replay(witness):
+    if 'late' in witness:
+        return not run_history(witness)[0]
     conv = Conv(witness.get('extensions', []))
     return conv(witness['source']) != witness['required']
 
 
 def replay_violation(v):
+    if isinstance(v['input'], dict):
+        return replay(v['input'])
     return replay({'extensions': v['config']['extensions'], 'source': v['input'], 'required': v['required']})
